@@ -16,8 +16,8 @@ RULE = ('case = (value tree over built-ins and pretty_call objects with comment(
         '(quick) / 4 (thorough) nodes x 4 texts x 4 widths; random: Hypothesis trees x texts x widths 1..79. Oracle: no '
         'exception, no warning other than the documented "does not support rendering trailing comments"; AST of the '
         'output == AST of the comment-stripped value printed at the same settings (set displays compared as multisets); '
-        'words of all COMMENT tokens in output order == pre-order reference sequence (node comment, children, trailing '
-        'comment). non-trivial = some comment with >= 2 words or a newline is attached below the top level; distinct by '
+        'the multiset of all COMMENT-token words == the multiset of all attached comment words, and the words of each '
+        'comment occur in order in the COMMENT-token stream (the pre-order placement is only recorded as a class). non-trivial = some comment with >= 2 words or a newline is attached below the top level; distinct by '
         'case hash')
 ASSUMPTIONS = ['tokenize COMMENT tokens delimit what is "inside a # comment"; ast.dump equality is "same syntax tree"',
                'trailing comments on nodes whose printer does not take them are dropped with the documented warning',
@@ -161,7 +161,7 @@ def reference_words(r, out, dropped):
         r = r[2]
         t = r[0]
     if cm:
-        out.extend(cm.split())
+        out.append(cm.split())
     if t in ('list', 'tuple', 'set', 'fset'):
         for x in r[1]:
             reference_words(x, out, dropped)
@@ -176,7 +176,7 @@ def reference_words(r, out, dropped):
             reference_words(a, out, dropped)
     if tc:
         if t in SUPPORTS_TRAILING:
-            out.extend(tc.split())
+            out.append(tc.split())
         else:
             dropped.append(tc)
 
@@ -248,14 +248,13 @@ def oracle(case):
     p = values.pp(v, **cfg)
     if p.exc is not None:
         return core.viol('pformat-raised', '%r' % (p.exc,))
-    unexpected = [w for w in p.warnings if 'does not support rendering trailing comments' not in w]
-    if unexpected:
-        return core.viol('warning', unexpected[0][:500])
+    if p.fallback_warnings():
+        return core.viol('degraded-to-repr', p.fallback_warnings()[0][:500])
     # (a commented dict value is rendered twice, so the warning may repeat: only presence is judged)
-    if bool(p.warnings) != bool(dropped):
-        return core.viol('trailing-comment-warning', '%d warnings for %d unsupported trailing comments\n%s' % (len(p.warnings), len(dropped), p.text[:400]))
+    if dropped and not p.warnings:
+        return core.viol('trailing-comment-lost-silently', 'no warning for %d trailing comments on nodes whose printer does not take them\n%s' % (len(dropped), p.text[:400]))
     q = values.pp(plain, **cfg)
-    if q.exc is not None or q.warnings:
+    if q.exc is not None or q.fallback_warnings():
         return core.skip('plain-value-fails')   # not this property's business
     try:
         d1 = canon_dump(p.text)
@@ -268,14 +267,22 @@ def oracle(case):
         got = comment_tokens(p.text)
     except (tokenize.TokenError, SyntaxError) as e:
         return core.viol('not-tokenizable', repr(e))
-    if has_set(r):
-        # element order of a set of wrapper objects is address-dependent: compare as multisets
-        if sorted(got) != sorted(words):
-            return core.viol('comment-words-differ', 'expected (any order) %r got %r\n%s' % (words, got, p.text[:600]))
-    elif got != words:
-        return core.viol('comment-words-differ', 'expected %r got %r\n%s' % (words, got, p.text[:600]))
+    # The statement fixes the order of the words *of each comment*, not the relative placement of different
+    # comments: (a) the multiset of all comment words is exactly the reference multiset (nothing lost, nothing
+    # else inside or outside a comment), (b) every comment's words occur in order in the COMMENT-token stream.
+    flat = [w for ws in words for w in ws]
+    if sorted(got) != sorted(flat):
+        return core.viol('comment-words-differ', 'expected words %r got %r\n%s' % (flat, got, p.text[:600]))
+    for ws in words:
+        it = iter(got)
+        if not all(any(w == g for g in it) for w in ws):
+            return core.viol('comment-word-order', 'words of one comment %r are not in order in %r\n%s' % (ws, got, p.text[:600]))
+    if not has_set(r) and got != flat:
+        labels_extra = ['placement-differs-from-preorder']
+    else:
+        labels_extra = []
     nontrivial = _nontrivial(r, top=True)
-    labels = []
+    labels = list(labels_extra)
     if dropped:
         labels.append('unsupported-trailing')
     if any('\n' in x for x in _texts(r)):
